@@ -691,3 +691,194 @@ Proof.
   - intros a b c Ha Hb Hc H1 H2. apply same_shape_sig; auto.
     apply same_shape_sig in H1; auto. apply same_shape_sig in H2; auto. congruence.
 Qed.
+
+(* ---------- the code's comparisons against the specification's, field by field ---------- *)
+(* the specification's value comparison (Valid.v xv_value_same) on lists *)
+Definition spec_list_go : list value -> list value -> bool :=
+  fix go (la lb : list value) {struct la} : bool :=
+    match la, lb with
+    | [], [] => true
+    | x :: la', y :: lb' => xv_value_same x y && go la' lb'
+    | _, _ => false
+    end.
+
+Lemma spec_list_forall2 la lb :
+  spec_list_go la lb = true <-> Forall2 (fun x y => xv_value_same x y = true) la lb.
+Proof.
+  revert lb. induction la as [|x la IH]; destruct lb as [|y lb]; cbn [spec_list_go].
+  - split; [constructor|reflexivity].
+  - split; [discriminate|intros H; inversion H].
+  - split; [discriminate|intros H; inversion H].
+  - rewrite andb_true_iff, IH. split.
+    + intros [H1 H2]. constructor; assumption.
+    + intros H. inversion H; subst. split; assumption.
+Qed.
+
+Lemma spec_same_list la lb : xv_value_same (VList la) (VList lb) = spec_list_go la lb.
+Proof. reflexivity. Qed.
+
+Lemma spec_same_obj_iff fa fb :
+  xv_value_same (VObject fa) (VObject fb) = true <->
+  (forall k x, In (k, x) fa -> exists x', In (k, x') fb /\ xv_value_same x x' = true) /\
+  (forall k x', In (k, x') fb -> exists x, In (k, x) fa /\ xv_value_same x x' = true).
+Proof.
+  cbn [xv_value_same]. rewrite andb_true_iff, !forallb_forall. split.
+  - intros [H1 H2]. split.
+    + intros k x Hin. specialize (H1 (k, x) Hin). cbn beta iota in H1. apply existsb_exists in H1.
+      destruct H1 as [[k' x'] [Hin' H]]. cbn [fst snd] in H. apply andb_true_iff in H. destruct H as [Hk Hs].
+      apply streq_eq in Hk. subst k'. exists x'. auto.
+    + intros k x' Hin'. specialize (H2 (k, x') Hin'). apply existsb_exists in H2.
+      destruct H2 as [[k0 x] [Hin H]]. cbn [fst snd] in H. apply andb_true_iff in H. destruct H as [Hk Hs].
+      apply streq_eq in Hk. subst k0. exists x. auto.
+  - intros [H1 H2]. split.
+    + intros [k x] Hin. cbn beta iota. apply existsb_exists. destruct (H1 k x Hin) as [x' [Hin' Hs]].
+      exists (k, x'). split; [exact Hin'|]. cbn [fst snd]. rewrite streq_refl. exact Hs.
+    + intros [k x'] Hin'. apply existsb_exists. destruct (H2 k x' Hin') as [x [Hin Hs]].
+      exists (k, x). split; [exact Hin|]. cbn [fst snd]. rewrite streq_refl. exact Hs.
+Qed.
+
+Lemma forall2_length {A B} (P : A -> B -> Prop) l r : Forall2 P l r -> length l = length r.
+Proof. intros H. induction H; cbn [length]; congruence. Qed.
+
+(* same_value computes the specification's comparison on values without repeated object keys *)
+Lemma same_value_spec_n n : forall a b, (vsize a < n)%nat ->
+  xv_value_unique a = true -> xv_value_unique b = true ->
+  (mx_same_value a b = true <-> xv_value_same a b = true).
+Proof.
+  induction n as [|n IH]; intros a b Hs Hua Hub; [lia|].
+  destruct a as [| e | v | s | t | t | bo | l | fs]; destruct b as [| e' | v' | s' | t' | t' | bo' | l' | fs'];
+    try (cbn [mx_same_value xv_value_same]; tauto).
+  - (* lists *)
+    rewrite same_value_list, spec_same_list, andb_true_iff, mx_nat_eqb_eq, spec_list_forall2.
+    assert (Hel : forall x, In x l -> forall y, In y l' ->
+              (mx_same_value x y = true <-> xv_value_same x y = true)).
+    { intros x Hx y Hy. apply IH; [pose proof (vsize_list_in x l Hx); lia| |].
+      - exact (unique_list l Hua x Hx).
+      - exact (unique_list l' Hub y Hy). }
+    split.
+    + intros [Hl Hz]. apply zip_all_forall2 in Hz; [|exact Hl]. clear Hs Hua Hub Hl.
+      induction Hz as [|x y l l' Hxy Hz IHz]; constructor.
+      * apply Hel; [left; reflexivity|left; reflexivity|exact Hxy].
+      * apply IHz. intros x' Hx' y' Hy'. apply Hel; right; assumption.
+    + intros Hz. pose proof (forall2_length _ _ _ Hz) as Hl. split; [exact Hl|].
+      apply zip_all_forall2; [exact Hl|]. clear Hs Hua Hub Hl.
+      induction Hz as [|x y l l' Hxy Hz IHz]; constructor.
+      * apply Hel; [left; reflexivity|left; reflexivity|exact Hxy].
+      * apply IHz. intros x' Hx' y' Hy'. apply Hel; right; assumption.
+  - (* objects *)
+    rewrite same_obj_iff, spec_same_obj_iff.
+    destruct (unique_obj fs Hua) as [Hnd Hu]. destruct (unique_obj fs' Hub) as [Hnd' Hu'].
+    assert (Hel : forall k x, In (k, x) fs -> forall k' y, In (k', y) fs' ->
+              (mx_same_value x y = true <-> xv_value_same x y = true)).
+    { intros k x Hx k' y Hy. apply IH; [pose proof (vsize_obj_in k x fs Hx); lia|exact (Hu k x Hx)|exact (Hu' k' y Hy)]. }
+    split.
+    + intros [Hl Hsub]. split.
+      * intros k x Hin. destruct (Hsub k x Hin) as [x' [Hf Hsame]]. destruct (find_key_some _ _ _ Hf) as [Hin' _].
+        exists x'. split; [exact Hin'|]. apply (Hel k x Hin k x' Hin'). exact Hsame.
+      * intros k x' Hin'.
+        assert (Hk : In k (map fst fs)).
+        { apply (keys_back fs fs' Hnd Hl).
+          - intros k0 Hk0. apply in_map_iff in Hk0. destruct Hk0 as [[k1 v0] [E Hin0]]. cbn in E. subst k1.
+            destruct (Hsub k0 v0 Hin0) as [w [Hf _]]. destruct (find_key_some _ _ _ Hf) as [Hinw _].
+            apply in_map_iff. exists (k0, w). auto.
+          - apply in_map_iff. exists (k, x'). auto. }
+        apply in_map_iff in Hk. destruct Hk as [[k0 x] [E Hin]]. cbn in E. subst k0.
+        destruct (Hsub k x Hin) as [w [Hf Hsame]].
+        rewrite (find_key_nodup k x' fs' Hnd' Hin') in Hf. injection Hf as <-.
+        exists x. split; [exact Hin|]. apply (Hel k x Hin k x' Hin'). exact Hsame.
+    + intros [H1 H2]. split.
+      * (* the key sets include each other and have no repetition: equal lengths *)
+        assert (L1 : (length (map fst fs) <= length (map fst fs'))%nat).
+        { apply NoDup_incl_length; [exact Hnd|]. intros k Hk. apply in_map_iff in Hk.
+          destruct Hk as [[k0 x] [E Hin]]. cbn in E. subst k0. destruct (H1 k x Hin) as [x' [Hin' _]].
+          apply in_map_iff. exists (k, x'). auto. }
+        assert (L2 : (length (map fst fs') <= length (map fst fs))%nat).
+        { apply NoDup_incl_length; [exact Hnd'|]. intros k Hk. apply in_map_iff in Hk.
+          destruct Hk as [[k0 x'] [E Hin']]. cbn in E. subst k0. destruct (H2 k x' Hin') as [x [Hin _]].
+          apply in_map_iff. exists (k, x). auto. }
+        rewrite !map_length in L1, L2. lia.
+      * intros k x Hin. destruct (H1 k x Hin) as [x' [Hin' Hsame]]. exists x'. split.
+        -- apply find_key_nodup; assumption.
+        -- apply (Hel k x Hin k x' Hin'). exact Hsame.
+Qed.
+
+Lemma same_value_spec a b : xv_value_unique a = true -> xv_value_unique b = true ->
+  (mx_same_value a b = true <-> xv_value_same a b = true).
+Proof. apply (same_value_spec_n (S (vsize a))). lia. Qed.
+
+(* "fieldA and fieldB must have identical field names" and "identical sets of arguments":
+   same_name_and_arguments is the specification's test (Valid.v: streq of the names and xv_args_same) *)
+Lemma same_name_args_spec a b : args_wf a -> args_wf b ->
+  (mx_same_name_and_arguments a b = true <->
+   streq (mf_name a) (mf_name b) && xv_args_same (mf_args a) (mf_args b) = true).
+Proof.
+  intros [Hnda Hua] [Hndb Hub]. rewrite same_name_args_iff, andb_true_iff, streq_eq.
+  unfold xv_args_same, args_sub, args_keys_sub. rewrite andb_true_iff, !forallb_forall. split.
+  - intros [Hn [H1 H2]]. split; [exact Hn|]. split.
+    + intros [k v] Hin. apply existsb_exists. destruct (H1 k v Hin) as [w [Hf Hs]].
+      destruct (find_key_some _ _ _ Hf) as [Hinw _]. exists (k, w). split; [exact Hinw|]. cbn [fst snd].
+      rewrite streq_refl. cbn [andb]. apply same_value_spec; [exact (Hua k v Hin)|exact (Hub k w Hinw)|].
+      apply same_value_sym; [exact (Hub k w Hinw)|exact (Hua k v Hin)|exact Hs].
+    + intros [k v] Hin. apply existsb_exists. destruct (H2 k v Hin) as [w Hf].
+      destruct (find_key_some _ _ _ Hf) as [Hinw _]. exists (k, w). split; [exact Hinw|]. cbn [fst]. apply streq_refl.
+  - intros [Hn [H1 H2]]. split; [exact Hn|]. split.
+    + intros k v Hin. specialize (H1 (k, v) Hin). apply existsb_exists in H1. destruct H1 as [[k' w] [Hinw H]].
+      cbn [fst snd] in H. apply andb_true_iff in H. destruct H as [Hk Hs]. apply streq_eq in Hk. subst k'.
+      exists w. split; [apply find_key_nodup; assumption|].
+      apply same_value_sym; [exact (Hua k v Hin)|exact (Hub k w Hinw)|].
+      apply same_value_spec; [exact (Hua k v Hin)|exact (Hub k w Hinw)|exact Hs].
+    + intros k v Hin. specialize (H2 (k, v) Hin). apply existsb_exists in H2. destruct H2 as [[k' w] [Hinw Hk]].
+      cbn [fst] in Hk. apply streq_eq in Hk. subst k'. exists w. apply find_key_nodup; assumption.
+Qed.
+
+(* steps 3 to 6 of SameResponseShape as Valid.v's xv_same_shape performs them before descending into the
+   sub-selections: strip non-null and list wrappers together, then compare leaf types by name / require both
+   composite *)
+Definition spec_shape_steps (s : schema) (ta tb : ty) : bool :=
+  match xv_shape_types s ta tb with
+  | None => false
+  | Some (na, nb) =>
+      match sch_get_type s na, sch_get_type s nb with
+      | Some da, Some db =>
+          if xv_is_leaf da || xv_is_leaf db then streq na nb else xv_is_composite da && xv_is_composite db
+      | _, _ => true
+      end
+  end.
+
+Lemma unwrap_lists_shape_types s ta tb :
+  match mx_unwrap_lists ta tb with
+  | Some (TNonNullNamed na, TNonNullNamed nb) | Some (TNamed na, TNamed nb) => Some (na, nb)
+  | _ => None
+  end = xv_shape_types s ta tb.
+Proof.
+  revert tb. induction ta as [na|na|ia IH|ia IH]; intros tb; destruct tb as [nb|nb|ib|ib];
+    cbn [mx_unwrap_lists xv_shape_types]; try reflexivity; apply IH.
+Qed.
+
+(* same_output_type_shape performs exactly these steps, when the two return types are defined *)
+Lemma same_shape_spec s a b : field_ty_defined s a -> field_ty_defined s b ->
+  mx_same_output_type_shape s a b = spec_shape_steps s (fd_ty (mf_def a)) (fd_ty (mf_def b)).
+Proof.
+  unfold field_ty_defined, mx_same_output_type_shape, spec_shape_steps. intros Da Db.
+  rewrite <- (unwrap_lists_shape_types s).
+  assert (Hin : forall ta tb ta' tb', mx_unwrap_lists ta tb = Some (ta', tb') ->
+            inner_named_type ta' = inner_named_type ta /\ inner_named_type tb' = inner_named_type tb).
+  { induction ta as [na|na|ia IH|ia IH]; intros tb ta' tb'; destruct tb as [nb|nb|ib|ib];
+      cbn [mx_unwrap_lists inner_named_type]; try discriminate; try (intros [= <- <-]; split; reflexivity); apply IH. }
+  destruct (mx_unwrap_lists (fd_ty (mf_def a)) (fd_ty (mf_def b))) as [[ta' tb']|] eqn:E; [|reflexivity].
+  destruct (Hin _ _ _ _ E) as [Ia Ib].
+  destruct Da as [da [Ea Ka]]. destruct Db as [db [Eb Kb]]. rewrite <- Ia in Ea. rewrite <- Ib in Eb.
+  assert (Hcore : forall na nb, sch_get_type s na = Some da -> sch_get_type s nb = Some db ->
+            (if mx_scalar_or_enum da && mx_scalar_or_enum db then streq (et_name da) (et_name db)
+             else xv_is_composite da && xv_is_composite db) =
+            (if xv_is_leaf da || xv_is_leaf db then streq na nb else xv_is_composite da && xv_is_composite db)).
+  { intros na nb Ga Gb. unfold mx_scalar_or_enum.
+    rewrite (sch_get_type_name _ _ _ Ga), (sch_get_type_name _ _ _ Gb).
+    destruct (xv_is_leaf da) eqn:La; destruct (xv_is_leaf db) eqn:Lb; cbn [andb orb]; try reflexivity.
+    - rewrite (leaf_not_composite da La). cbn [andb]. destruct (streq na nb) eqn:Es; [|reflexivity].
+      apply streq_eq in Es. subst nb. rewrite Ga in Gb. injection Gb as ->. congruence.
+    - rewrite (leaf_not_composite db Lb), andb_false_r. destruct (streq na nb) eqn:Es; [|reflexivity].
+      apply streq_eq in Es. subst nb. rewrite Ga in Gb. injection Gb as ->. congruence. }
+  destruct ta' as [na|na|ia|ia]; destruct tb' as [nb|nb|ib|ib]; try reflexivity;
+    cbn [inner_named_type] in Ea, Eb; rewrite Ea, Eb; apply Hcore; assumption.
+Qed.
